@@ -36,6 +36,8 @@ MCKinds == {"nat", "int", "long", "string", "bool", "double", "mtrue", "mint", "
             "tuplec", "ref", "rec", "dict", "dictany", "pair", "tinst"}
 MCKindsSmall == {"nat", "int", "string", "mtrue", "vec", "ref", "rec"}
 MCKindsInt == {"int"}
+MCKindsCore == {"nat", "int", "rec", "mtrue", "dict"}
+MCKindsTmpl == {"int", "tinst"}
 MCKindsTLO == {"nat", "int", "string", "mint", "vec", "ref", "tinst"}
 MCMutations == {"dupfield", "unknownref", "masknonnat", "maskforward", "bit32", "dupcomb", "selfbare",
                 "arity", "natfortype", "upperctor", "syntax"}
